@@ -1,6 +1,6 @@
 """C09 move / rotate / scale transform the region exactly as the affine map does.
 
-History explorer: all sequences (length <= 2 quick, <= 3 thorough) over an alphabet of 12
+History explorer: all sequences (length <= 2 quick, <= 3 thorough) over an alphabet of 13
 transformations on each shape of a kind/type alphabet; in every reached state the real
 object's control points are compared with the reference image of the original control
 points (Bezier curves are affine invariant, so this decides membership of T(p) for all p)."""
@@ -18,8 +18,8 @@ ID = "C09"
 LEVEL = "model_checking"
 RULE = (
     "per shape (P: sqA, triA, L, U cw; PC: hollow, two, xtwo, xhollow; each int / Fraction / float; curved: c8, lens, "
-    "cubic blob, curved ring, cubics with a doubled and with a zero-length handle) breadth-first search over all sequences of length <= 2 (thorough 3) of 12 transformations "
-    "(move by (3,-2), (1/3,2/7), (0.5,-1.25), (1e6,0), tuple form; scale by (2,3), (1/2,1/3), (0.5,2.0); rotate by pi/2, "
+    "cubic blob, curved ring, cubics with a doubled and with a zero-length handle) breadth-first search over all sequences of length <= 2 (thorough 3) of 13 transformations "
+    "(move by (3,-2), (1/3,2/7), (0.5,-1.25), (1e6,0), tuple form, Point2D form; scale by (2,3), (1/2,1/3), (0.5,2.0); rotate by pi/2, "
     "0.3, 90 deg, -37.5 deg), states de-duplicated on the full representation; invariant in every state: every control "
     "point equals the exact affine image of the original (exactly, with Fraction type, for rational data under "
     "move/scale; 1e-9 relative otherwise), junction sharing and orientation preserved, call returns the same object, "
@@ -35,6 +35,7 @@ TRANSFORMS = [
     ["move", 0.5, -1.25],
     ["move", 1000000.0, 0],
     ["movet", -2, 5],
+    ["movep", "5/2", -1],
     ["scale", 2, 3],
     ["scale", "1/2", "1/3"],
     ["scale", 0.5, 2.0],
@@ -67,6 +68,15 @@ def apply_lib(S, t):
         return S.move(num(t[1]), num(t[2]))
     if k == "movet":
         return S.move((num(t[1]), num(t[2])))
+    if k == "movep":
+        # the translation given as a Point2D object: it is an input and must come back unchanged
+        from .. import lib
+
+        v = lib.Point2D(num(t[1]), num(t[2]))
+        r = S.move(v)
+        if (rg.ex(v._x), rg.ex(v._y)) != (rg.ex(num(t[1])), rg.ex(num(t[2]))):
+            raise AssertionError("move(Point2D) modified its argument: now (%s, %s)" % (v._x, v._y))
+        return r
     if k == "scale":
         return S.scale(num(t[1]), num(t[2]))
     if k == "rotate":
@@ -78,7 +88,7 @@ def apply_lib(S, t):
 
 def inverse(t):
     k = t[0]
-    if k in ("move", "movet"):
+    if k in ("move", "movet", "movep"):
         return [k, neg(t[1]), neg(t[2])]
     if k == "scale":
         return ["scale", inv(t[1]), inv(t[2])]
@@ -107,7 +117,7 @@ def model_apply(pts, t):
 
     k = t[0]
     out = []
-    if k in ("move", "movet"):
+    if k in ("move", "movet", "movep"):
         vx, vy = num(t[1]), num(t[2])
         # Point2D(vx, vy) keeps both as given unless both are rational
         for x, y, xr, yr in pts:
@@ -238,7 +248,7 @@ def run_history(e, hist, check_inverse=True, deep=True):
                 fails.append(("inverse-noresult", tname(inverse(t))))
                 return S, fails
         S0 = build_shape(e)
-        allrat = all(t[0] in ("move", "movet", "scale") and all(is_rat(num(x)) for x in t[1:]) for t in hist)
+        allrat = all(t[0] in ("move", "movet", "movep", "scale") and all(is_rat(num(x)) for x in t[1:]) for t in hist)
         p0 = shape_points(S0)
         sc0 = max([abs(rg.ex(p._x)) for p in p0] + [abs(rg.ex(p._y)) for p in p0] + [F(1)])
         for p, q in zip(shape_points(S), p0):
